@@ -10,6 +10,7 @@ import (
 
 	"github.com/go-ldap/ldap/v3"
 	"github.com/jimlambrt/gldap"
+	"verif/codec"
 	"verif/ev"
 )
 
@@ -66,6 +67,12 @@ func haveIPv6() bool {
 // c17case: kind = "valid" | "malformed" | "unlistenable" | "in-use". addr contains PORT where a free port goes.
 func c17case(c *Ctx, addrTmpl, kind string) {
 	c.Count("cases", 1)
+	// "valid+<others>": other clients are connected to the ready server when the probe connection is made:
+	// silent1 / silent2 = connected, nothing sent; partial = connected, the first bytes of a request sent
+	others := ""
+	if strings.HasPrefix(kind, "valid+") {
+		others, kind = kind[6:], "valid"
+	}
 	port := freePort()
 	addr := strings.ReplaceAll(addrTmpl, "PORT", fmt.Sprint(port))
 	var holder net.Listener
@@ -77,7 +84,7 @@ func c17case(c *Ctx, addrTmpl, kind string) {
 		}
 		defer holder.Close()
 	}
-	rep := map[string]string{"addr": addrTmpl, "kind": kind}
+	rep := map[string]string{"addr": addrTmpl, "kind": kind, "others": others}
 	srv, err := gldap.NewServer(gldap.WithLogger(quietLogger))
 	if err != nil {
 		panic(err)
@@ -179,10 +186,28 @@ func c17case(c *Ctx, addrTmpl, kind string) {
 		if strings.HasPrefix(dial, "::1:") {
 			dial = "[::1]:" + fmt.Sprint(port)
 		}
+		var held []net.Conn
+		for i := 0; others != "" && i < map[string]int{"silent1": 1, "silent2": 2, "partial": 1}[others]; i++ {
+			c.Count("steps", 1)
+			oc, err := net.DialTimeout("tcp", dial, 5*time.Second)
+			if err != nil {
+				break
+			}
+			if others == "partial" {
+				_, _ = oc.Write((&codec.Req{Op: "bind", MsgID: 1, Version: 3, DN: "cn=a", Password: "p"}).Bytes()[:3])
+			}
+			held = append(held, oc)
+		}
+		closeHeld := func() {
+			for _, oc := range held {
+				oc.Close()
+			}
+		}
 		c.Count("steps", 1)
 		conn, err := net.DialTimeout("tcp", dial, 5*time.Second)
 		if err != nil {
-			_ = srv.Stop()
+			closeHeld()
+			stopBounded(srv)
 			c.Outcome("valid: dial fails after Ready")
 			c.Report("a connection attempt fails although Ready reported true", fmt.Sprintf("addr %q dial %q: %v", addr, dial, err), rep)
 			return
@@ -192,7 +217,8 @@ func c17case(c *Ctx, addrTmpl, kind string) {
 		lc.SetTimeout(10 * time.Second)
 		berr := lc.Bind("cn=a", "p")
 		lc.Close()
-		_ = srv.Stop()
+		closeHeld()
+		stopBounded(srv)
 		select {
 		case err := <-runErr:
 			if err != nil {
@@ -203,10 +229,24 @@ func c17case(c *Ctx, addrTmpl, kind string) {
 		}
 		if berr != nil {
 			c.Outcome("valid: not served")
-			c.Report("a connection made after Ready reported true is not served", fmt.Sprintf("addr %q: %v", addr, berr), rep)
+			key := "a connection made after Ready reported true is not served"
+			if others != "" {
+				key += " while another client is connected and " + map[string]string{"silent1": "silent", "silent2": "silent", "partial": "half-way through a request"}[others]
+			}
+			c.Report(key, fmt.Sprintf("addr %q: %v", addr, berr), rep)
 			return
 		}
-		c.Outcome("valid: ready, connected, served")
+		c.Outcome("valid" + others + ": ready, connected, served")
+	}
+}
+
+// stopBounded calls Stop but does not wait for it for ever: whether Stop returns is C11's business.
+func stopBounded(srv *gldap.Server) {
+	done := make(chan struct{})
+	go func() { _ = srv.Stop(); close(done) }()
+	select {
+	case <-done:
+	case <-time.After(20 * time.Second):
 	}
 }
 
@@ -227,6 +267,9 @@ func c17run(c *Ctx) {
 	for _, t := range mal {
 		cases = append(cases, a{t, "malformed"})
 	}
+	for _, o := range []string{"silent1", "silent2", "partial"} {
+		cases = append(cases, a{"127.0.0.1:PORT", "valid+" + o}, a{":PORT", "valid+" + o})
+	}
 	for _, t := range []string{"127.0.0.1:99999", "127.0.0.1:abc", "127.0.0.1:-1", "192.0.2.77:PORT"} {
 		cases = append(cases, a{t, "unlistenable"})
 	}
@@ -239,7 +282,7 @@ func c17run(c *Ctx) {
 	}
 	for _, cs := range cases {
 		n := 1
-		if cs.kind == "valid" || cs.kind == "in-use" {
+		if strings.HasPrefix(cs.kind, "valid") || cs.kind == "in-use" {
 			n = reps // the Ready => connectable cross-check is repeated
 		}
 		for i := 0; i < n; i++ {
